@@ -173,4 +173,77 @@ theorem writeSeqL_short (vals : List α) (l : List α) (k : Nat) (v : α) (h : l
   rw [if_neg (by omega)]
   rfl
 
+theorem bindO_some {α σ ρ : Type} (a : α) (k : α → Go.Ctl σ (Option ρ)) : Go.Ctl.bindO (some a) k = k a := rfl
+theorem bindO_none {α σ ρ : Type} (k : α → Go.Ctl σ (Option ρ)) : Go.Ctl.bindO (none : Option α) k = .ret none := rfl
+
+/-- `for i := k; i != k+n; i++ { b[i] = 0 }` as generated: the `n` bytes from `k` are zeroed, or an
+    index panic if the buffer ends before -/
+theorem zeroLoop (n : Nat) : ∀ (i : Int64) (k : Nat) (b : List UInt8), i.toInt = k → k + n ≤ b.length →
+    k + n < 4611686018427387904 →
+    Go.forCount (ρ := Option (List UInt8)) n i b (fun i b =>
+        Go.Ctl.bindO (Go.setG? b i (0 : UInt8)) fun _s =>
+        let b : (List UInt8) := _s
+        Go.Ctl.next b) = .inl (b.take k ++ List.replicate n 0 ++ b.drop (k + n)) := by
+  induction n with
+  | zero => intro i k b _ _ _; simp [Go.forCount]
+  | succ n ih =>
+    intro i k b hi hk hbig
+    rw [Go.forCount]
+    have hset : Go.setG? b i (0 : UInt8) = some (b.set k 0) := by
+      unfold Go.setG?
+      rw [if_pos (by omega)]
+      have : i.toInt.toNat = k := by omega
+      rw [this]
+    have hi1 : (i + 1).toInt = (k + 1 : Nat) := by
+      have h1 : (1 : Int64).toInt = 1 := by decide
+      rw [toInt_add_of_fits _ _ (by omega) (by omega), hi, h1]; omega
+    simp only [hset, bindO_some]
+    rw [ih (i + 1) (k + 1) (b.set k 0) hi1 (by simp; omega) (by omega)]
+    rw [set_take_succ _ _ _ (by omega), set_drop_gt _ _ _ _ (by omega)]
+    congr 1
+    simp only [List.append_assoc, List.singleton_append, List.replicate_succ]
+    congr 3
+    omega
+
+theorem zeroLoop_short (n : Nat) : ∀ (i : Int64) (k : Nat) (b : List UInt8), i.toInt = k → k ≤ b.length → b.length < k + n →
+    k + n < 4611686018427387904 →
+    Go.forCount (ρ := Option (List UInt8)) n i b (fun i b =>
+        Go.Ctl.bindO (Go.setG? b i (0 : UInt8)) fun _s =>
+        let b : (List UInt8) := _s
+        Go.Ctl.next b) = .inr none := by
+  induction n with
+  | zero => intro i k b _ h1 h2 _; omega
+  | succ n ih =>
+    intro i k b hi hk hshort hbig
+    rw [Go.forCount]
+    by_cases hlt : k < b.length
+    · have hset : Go.setG? b i (0 : UInt8) = some (b.set k 0) := by
+        unfold Go.setG?
+        rw [if_pos (by omega)]
+        have : i.toInt.toNat = k := by omega
+        rw [this]
+      have hi1 : (i + 1).toInt = (k + 1 : Nat) := by
+        have h1 : (1 : Int64).toInt = 1 := by decide
+        rw [toInt_add_of_fits _ _ (by omega) (by omega), hi, h1]; omega
+      simp only [hset, bindO_some]
+      rw [ih (i + 1) (k + 1) (b.set k 0) hi1 (by simp; omega) (by simp; omega) (by omega)]
+    · have hset : Go.setG? b i (0 : UInt8) = none := by
+        unfold Go.setG?
+        rw [if_neg (by omega)]
+      simp only [hset, bindO_none]
+
+/-- consecutive writes followed by the rest of the function `cont` -/
+def writeSeqK {β : Type} (l : List α) : Nat → List α → (List α → Option β) → Option β
+  | _, [], cont => cont l
+  | k, v :: vs, cont => (Go.setK? l k v).bind fun l' => writeSeqK l' (k + 1) vs cont
+
+theorem writeSeqK_eq {β : Type} : ∀ (vals : List α) (l : List α) (k : Nat) (cont : List α → Option β),
+    writeSeqK l k vals cont = (writeSeqL l k vals).bind cont
+  | [], l, k, cont => rfl
+  | v :: vs, l, k, cont => by
+    simp only [writeSeqK, writeSeqL]
+    cases Go.setK? l k v with
+    | none => rfl
+    | some l' => simp only [Option.bind_some]; exact writeSeqK_eq vs l' (k + 1) cont
+
 end ScionTime.GoSlice
